@@ -264,6 +264,18 @@ pub fn heap_audit(rt: &RuntimeData) -> Result<AuditStats, String> {
         unsafe {
             match &o.as_ref().body {
                 CaoLangObjectBody::Table(t) => {
+                    // the hash part stores its own copy of every key: it must be live too
+                    for (n, (k, v)) in std::ops::Deref::deref(t).iter().enumerate() {
+                        for (what, x) in [("key", k), ("value", v)] {
+                            if let Value::Object(xo) = x {
+                                if !live.contains(&(xo.as_ptr() as usize)) {
+                                    return Err(format!(
+                                        "dangling reference: {what} stored in bucket entry {n} of the hash part of a table reached from ({why}) points to a freed object"
+                                    ));
+                                }
+                            }
+                        }
+                    }
                     for (n, k) in t.keys().iter().enumerate() {
                         if let Value::Object(ko) = k {
                             if !live.contains(&(ko.as_ptr() as usize)) {
